@@ -1220,7 +1220,7 @@ impl DcpsDomainParticipant {
                                             StatusKind::PublicationMatched,
                                         );
                                     }
-                                    data_writer
+                                    let is_status_changed = data_writer
                                         .incompatible_subscriptions
                                         .add_incompatible_subscription(
                                             InstanceHandle::new(
@@ -1231,6 +1231,9 @@ impl DcpsDomainParticipant {
                                             ),
                                             incompatible_qos_policy_list,
                                         );
+                                    if !is_status_changed {
+                                        continue;
+                                    }
 
                                     if data_writer
                                         .listener_mask
@@ -1778,12 +1781,19 @@ impl DcpsDomainParticipant {
                                             .transport_reader
                                             .delete_matched_writer(publication_key.into());
                                     }
-                                    data_reader.add_requested_incompatible_qos(
-                                        InstanceHandle::new(
-                                            discovered_writer_data.dds_publication_data.key().value,
-                                        ),
-                                        incompatible_qos_policy_list,
-                                    );
+                                    let is_status_changed = data_reader
+                                        .add_requested_incompatible_qos(
+                                            InstanceHandle::new(
+                                                discovered_writer_data
+                                                    .dds_publication_data
+                                                    .key()
+                                                    .value,
+                                            ),
+                                            incompatible_qos_policy_list,
+                                        );
+                                    if !is_status_changed {
+                                        continue;
+                                    }
 
                                     if data_reader
                                         .listener_mask
@@ -3526,12 +3536,14 @@ impl PublicationMatchedStatus {
 }
 
 impl IncompatibleSubscriptions {
+    /// Returns true when the subscription was not yet known as incompatible (the status changed)
     fn add_incompatible_subscription(
         &mut self,
         handle: InstanceHandle,
         incompatible_qos_policy_list: Vec<QosPolicyId>,
-    ) {
-        if !self.incompatible_subscription_list.contains(&handle) {
+    ) -> bool {
+        let is_new = !self.incompatible_subscription_list.contains(&handle);
+        if is_new {
             self.offered_incompatible_qos_status.total_count += 1;
             self.offered_incompatible_qos_status.total_count_change += 1;
             self.offered_incompatible_qos_status.last_policy_id = incompatible_qos_policy_list[0];
@@ -3555,6 +3567,7 @@ impl IncompatibleSubscriptions {
                 }
             }
         }
+        is_new
     }
 
     fn get_offered_incompatible_qos_status(&mut self) -> OfferedIncompatibleQosStatus {
